@@ -60,11 +60,14 @@ class ServeTask(Task):
                 return None
             return NotImplemented
         c.env_call = env_call
+        # `self` is an Association: private helpers of the class that _serve_request may call are executed (real code); the
+        # methods that leave the function's scope are summarised by their effect
+        c.summaries["pynetdicom.association:Association.abort"] = lambda I, a, k: I.trace.append(Ev("abort"))
         return c
 
     def body(self, I):
         g = I.ghost
-        me = Env("assoc")
+        me = Env("assoc", cls=I.repo.cls("pynetdicom.association:Association"))
         me.attrs["_sent_release"] = I.input("bool", "_sent_release")
         dimse = Env("assoc.dimse")
         me.attrs["dimse"] = dimse
@@ -144,7 +147,7 @@ class IsCancelledTask(Task):
 
     def body(self, I):
         P = f"C23/{ISC}"
-        me = Env("service_class")
+        me = Env("service_class", cls=I.repo.cls("pynetdicom.service_class:ServiceClass"))
         dimse = Env("service_class.dimse")
         me.attrs["dimse"] = dimse
         cm = AbsMap(I, "cancel_req")
@@ -202,11 +205,12 @@ class ReceiveCancelTask(Task):
     def body(self, I):
         P = f"C23/{RECVP}"
         g = I.ghost
-        me = Env("dimse")
+        me = Env("dimse", cls=I.repo.cls("pynetdicom.dimse:DIMSEServiceProvider"))
         m = Env("dimse.message")
         m.attrs["context_id"] = I.input("int", "context_id")
         me.attrs["message"] = m
         me.attrs["assoc"] = Env("dimse.assoc")
+        me.attrs["dul"] = Env("dimse.dul")
         cm = AbsMap(I, "cancel_req")
         me.attrs["cancel_req"] = cm
         n0 = cm.n
